@@ -30,7 +30,7 @@ def meta(tier):
     return {
         'level': 'exploration',
         'rule': (f'all ordered pairs of line lists of length <= {k} over the alphabet {{a, b, c}} ({n} lists, {n * n} pairs) passed as arrays; '
-                 'seeded random pairs up to 40 lines passed as arrays, as LF-joined strings and as CRLF-joined strings (with edits: '
+                 'seeded random pairs up to 40 lines passed as arrays, as LF-joined and CRLF-joined strings, as one array and one string, as arrays whose elements hold several lines, and as arrays with CR-ending elements (with edits: '
                  'insert/delete/replace/duplicate/move). diffLines is loaded once per process with include <diff.bare> through the CLI\'s '
                  'system-include fetcher and called through its global binding. Every shipped include must parse, validate and lint '
                  'clean. Non-trivial: left != right and both non-empty; distinct = distinct (left, right, form).'),
